@@ -20,6 +20,7 @@ SHARDS = {"quick": 8, "thorough": 16}
 TIMEOUT = {"quick": 1500, "thorough": 10800}
 REQUIRED = {"seq.event": 3000, "thr.event": 1500, "root_unchanged": 100, "children_conservation": 50, "concat": 100,
             "generator": 200, "ckd_state": 1000}
+ANCHORS = ['base_wallet:BaseWallet.by_path', 'base_wallet:BaseWallet.address_generator', 'bip32:PrvKeyNode.ckd', 'bip32:PubKeyNode.ckd', 'bip32:PubKeyNode.generate_children', 'bip32:PubKeyNode.derive_path', 'base_wallet:BaseWallet.node_extended_keys', 'paper_wallet:PaperWallet.generate']
 RULE = ("random programs of 50-500 API calls (by_path, ckd, generate_children, derive_path, address generator next/send, five "
         "address kinds, node_extended_keys, extended keys, str, fingerprint, BIP85, generate/json/wasabi_json) over a pool of "
         "shared wallets (private, watch-only twin, watch-only at an exported account) with deliberate repeats, reversed "
